@@ -142,6 +142,9 @@ class Codec:
         i_len = msg.find(self.SOH)
         if i_len == -1 or not msg.startswith("9=", i_len + 1):
             return -1
+        if msg.find("8=FIX.", 1, i_len) != -1:
+            # BeginString field is cut: real message begins later
+            return -1
         i_body = msg.find(self.SOH, i_len + 1)
         if i_body == -1:
             return -1
@@ -210,7 +213,8 @@ class Codec:
         # at a minimum we require BeginString, BodyLength & Checksum
         if len(msg) < 3:
             assert silent, "Minimum message"
-            return (None, parsed_length, None)
+            # wait for more data, unless next message has already begun
+            return (None, parsed_length + (next_msg if has_next_msg else 0), None)
 
         if not is_terminated:
             # last field is not complete: wait for the rest, or skip this message if
@@ -225,19 +229,19 @@ class Codec:
                 % (value, self.protocol.beginstring)
             )
             assert silent, "protocol beginstring mismatch"
-            return (None, len(rawmsg), None)
+            return (None, valid_idx + next_msg, None)
 
         toks = msg[1].split("=", 1)
         if len(toks) != 2:
             assert silent, f"BodyLength split error {msg}"
-            return (None, len(rawmsg), None)
+            return (None, valid_idx + next_msg, None)
         tag, value = toks
 
         msg_length = len(msg[0]) + len(msg[1]) + len("10=000") + 3
         if tag != FTag.BodyLength or not value.isdigit() or not value.isascii():
             logging.error(f"*** BodyLength missing or not 2nd field *** [{tag}]: {msg}")
             assert silent, "2nd tag must be BodyLength"
-            return (None, len(rawmsg), None)
+            return (None, valid_idx + next_msg, None)
         else:
             msg_length += int(value)
 
@@ -267,7 +271,7 @@ class Codec:
             toks = m.split("=", 1)
             if len(toks) != 2:
                 assert silent, f"incomplete tag {m}"
-                return (None, len(rawmsg), None)
+                return (None, valid_idx + next_msg, None)
             tag, value = toks
 
             if not tag.isdigit() or not tag.isascii():
